@@ -3,7 +3,7 @@
    [avail f H] is the view of the parents (one fuel step less); the theorems hold
    for every hierarchy H, every layer and every fuel, i.e. whatever the parents are. *)
 From Coq Require Import ZArith List Bool Sorting.Permutation Sorting.Sorted.
-From OV Require Import Base.Wire Generated Model.Inherit Proofs.InheritProofs Proofs.PriorityProofs Proofs.ConflictProofs Proofs.ComparamProofs Proofs.SortProofs.
+From OV Require Import Base.Wire Generated Model.Inherit Proofs.InheritProofs Proofs.PriorityProofs Proofs.RoutingProofs Proofs.ConflictProofs Proofs.ComparamProofs Proofs.SortProofs.
 Import ListNotations.
 Open Scope Z_scope.
 
@@ -14,6 +14,13 @@ Theorem C09_priorities_ok :
   prio TBaseVariant < prio TEcuVariant /\ prio TEcuVariant < prio TEcuShared.
 Proof. exact priorities_ok. Qed.
 Print Assumptions C09_priorities_ok.
+
+(* the exclusion lists of a PARENT-REF are applied to the right lists of the data dictionary (table regenerated
+   from hierarchyelement.py on every run): NOT-INHERITED-DOPS to exactly the ten lists of DOP-BASE objects,
+   NOT-INHERITED-TABLES to the tables *)
+Theorem C09_exclusion_lists_routed : routing_ok ddd_routing = true.
+Proof. exact exclusion_lists_routed. Qed.
+Print Assumptions C09_exclusion_lists_routed.
 
 (* no two visible objects share a short name *)
 Theorem C09_names_unique : forall fuel H L os, avail fuel H L = IOk os -> NoDup (map o_name os).
